@@ -14,6 +14,7 @@ import (
 	"time"
 
 	abcicli "github.com/tendermint/tendermint/abci/client"
+	abciserver "github.com/tendermint/tendermint/abci/server"
 	abci "github.com/tendermint/tendermint/abci/types"
 	"github.com/tendermint/tendermint/config"
 	"github.com/tendermint/tendermint/libs/clist"
@@ -98,9 +99,25 @@ type realPool struct {
 
 	recheckExpected int64 // number of recheck tasks v1 has been made to start
 	label           string
+	closers         []func()
 }
 
-func newRealPool(cfg poolCfg, u *universe) (*realPool, error) {
+// poolOpt: non-default wiring of a realPool (gated stage).
+type poolOpt struct {
+	sockPath string               // non-empty: ABCI over a unix socket (abci socket server + socket client)
+	pre      mempool.PreCheckFunc // replaces the configured pre-check filter
+}
+
+func newRealPool(cfg poolCfg, u *universe) (*realPool, error) { return newRealPoolWith(cfg, u, poolOpt{}) }
+
+func (p *realPool) close() {
+	for i := len(p.closers) - 1; i >= 0; i-- {
+		p.closers[i]()
+	}
+	p.closers = nil
+}
+
+func newRealPoolWith(cfg poolCfg, u *universe, opt poolOpt) (*realPool, error) {
 	p := &realPool{cfg: cfg, u: u, postSeen: map[int]int{}}
 	p.label = fmt.Sprintf("p%d", atomic.AddInt64(&poolSerial, 1))
 	p.app = newApp(u, cfg.InitHeight)
@@ -114,14 +131,45 @@ func newRealPool(cfg poolCfg, u *universe) (*realPool, error) {
 	mc.TTLNumBlocks = cfg.TTL
 	mc.TTLDuration = 0
 	p.mcfg = mc
-	cc := proxy.NewLocalClientCreator(p.app)
-	cli, err := cc.NewABCIClient()
-	if err != nil {
-		return nil, err
+	var cli abcicli.Client
+	if opt.sockPath == "" {
+		c, err := proxy.NewLocalClientCreator(p.app).NewABCIClient()
+		if err != nil {
+			return nil, err
+		}
+		cli = c
+	} else {
+		addr := "unix://" + opt.sockPath
+		srv := abciserver.NewSocketServer(addr, p.app)
+		if err := srv.Start(); err != nil {
+			return nil, err
+		}
+		c := abcicli.NewSocketClient(addr, true)
+		if err := c.Start(); err != nil {
+			_ = srv.Stop()
+			return nil, err
+		}
+		// Shut down from the server side: the socket client's own Stop marks the requests
+		// still in flight (e.g. the throttled trailing Flush) as done without forgetting them,
+		// and panics ("negative WaitGroup counter") if their response still arrives.  When
+		// the server closes the connection the client's receive routine stops the client
+		// itself, and nothing can arrive afterwards.
+		p.closers = append(p.closers, func() {
+			_ = srv.Stop()
+			for i := 0; i < 400 && c.IsRunning(); i++ {
+				time.Sleep(5 * time.Millisecond)
+			}
+			if c.IsRunning() {
+				_ = c.Stop()
+			}
+		})
+		cli = c
 	}
-	var _ abcicli.Client = cli
 	conn := proxy.NewAppConnMempool(cli)
 	pre, post := filters(cfg.PreMax, cfg.PostMaxGas)
+	if opt.pre != nil {
+		pre = opt.pre
+	}
 	p.postIn = post
 	if cfg.Ver == 0 {
 		opts := []mempoolv0.CListMempoolOption{mempoolv0.WithPostCheck(p.postCheck)}
